@@ -312,7 +312,8 @@ def check_offsets(case, R):
     if len(fields) >= 2 and len(fields) <= 4:
         with engine.deadline(60):
             traversal_histories(desc, R, one)
-    for base in BASES:
+    # the SAME object is walked at every base, including bases that the approximate BitLengthSet equality cannot tell apart
+    for base in BASES + (COLLIDING_BASES if len(fields) >= 2 else []):
         with engine.deadline(30):
             got = list(t.iterate_fields_with_offsets(BitLengthSet(base)))
         if [id(f) for f, _o in got] != [id(f) for f in fields] and [str(f) for f, _o in got] != [str(f) for f in fields]:
